@@ -434,6 +434,28 @@ static void bad_LST1_tail_before_switch(cJSON *parent, cJSON *item, cJSON *repla
     if (replacement->next == NULL) { parent->child->prev = replacement; }
     if (parent->child == item) { parent->child = replacement; }
 }
+/* ESC5: a search-driven decoder resumes behind the character it just decoded */
+static void bad_ESC5_resume_at_decoded(unsigned char *string)
+{
+    unsigned char *escape = (unsigned char*)strchr((char*)string, '~');
+    while (escape != NULL)
+    {
+        if (escape[1] == '0') { escape[0] = '~'; } else if (escape[1] == '1') { escape[0] = '/'; } else { return; }
+        memmove(escape + 1, escape + 2, strlen((char*)(escape + 2)) + 1);
+        escape = (unsigned char*)strchr((char*)escape, '~');
+    }
+}
+static void good_resume_behind(unsigned char *string)
+{
+    unsigned char *escape = (unsigned char*)strchr((char*)string, '~');
+    while (escape != NULL)
+    {
+        if (escape[1] == '0') { escape[0] = '~'; } else if (escape[1] == '1') { escape[0] = '/'; } else { return; }
+        memmove(escape + 1, escape + 2, strlen((char*)(escape + 2)) + 1);
+        escape = (unsigned char*)strchr((char*)(escape + 1), '~');
+    }
+}
+void use_esc5(unsigned char *s) { bad_ESC5_resume_at_decoded(s); good_resume_behind(s); }
 /* TAB20 */
 static int bad_TAB20_first_byte(const cJSON *a, const cJSON *b) { int diff = a->string[0] - b->string[0]; if (diff == 0) { diff = strcmp(a->string, b->string); } return diff; }
 static int good_key_compare(const cJSON *a, const cJSON *b) { if (a->string[0] == '\0') { return -1; } return strcmp(a->string, b->string); }
